@@ -248,11 +248,11 @@ theorem fromIterSorted_ok (ok : CfgOK c) {D : Type} (g : Rng D) (fuel : Nat)
         by_cases h4 : c.cab mx = 0
         · rw [if_pos h4] at h
           obtain ⟨s, d1, h2, h3⟩ := bind_ok h
-          obtain ⟨hs, he⟩ := withCapBits_ok ok g _ _ _ _ _ h2
+          obtain ⟨hs, he⟩ := withCapBits_ok ok g _ _ (ok.cab_lt mx) _ _ _ h2
           exact fill s d1 hs he h3
         · rw [if_neg h4] at h
           obtain ⟨s, d1, h2, h3⟩ := bind_ok h
-          obtain ⟨hs, he⟩ := withCapBits_ok ok g _ _ _ _ _ h2
+          obtain ⟨hs, he⟩ := withCapBits_ok ok g _ _ (ok.cab_lt mx) _ _ _ h2
           exact fill s d1 hs he h3
 
 /-! ### 6. remove from an inline value -/
@@ -325,9 +325,9 @@ def HeapInsOK (c : Cfg) {D : Type} (g : Rng D) (rec : Ins D) : Prop :=
   ∀ sz cap bits a e d r' b d', WF c (.heap sz cap bits a) → e < 2 ^ c.W →
     insertStep c g rec (.heap sz cap bits a) e d = .ok ((r', b), d') → InsOK c (.heap sz cap bits a) e r' b
 
-/-- the heap case of `remove` -/
+/-- the heap case of `remove` (for an in-range `e`: the bitmap layout needs `compute_array_bits e` to be meaningful) -/
 def HeapRemOK (c : Cfg) {D : Type} (g : Rng D) (fuel : Nat) : Prop :=
-  ∀ sz cap bits a e d r' b d', WF c (.heap sz cap bits a) →
+  ∀ sz cap bits a e d r' b d', WF c (.heap sz cap bits a) → e < 2 ^ c.W →
     remove c g fuel (.heap sz cap bits a) e d = .ok ((r', b), d') → RemOK c (.heap sz cap bits a) e r' b
 
 theorem insertStep_ok (ok : CfgOK c) {D : Type} (g : Rng D) (rec : Ins D) (hrec : RecOK c rec)
@@ -349,12 +349,12 @@ theorem insert_ok (ok : CfgOK c) {D : Type} (g : Rng D)
 
 theorem remove_ok (ok : CfgOK c) {D : Type} (g : Rng D) (fuel : Nat)
     (hins : RecOK c (insert c g fuel)) (hheap : HeapRemOK c g fuel)
-    (r : Rp) (wf : WF c r) (e : Nat) (d d' : D) (r' : Rp) (b : Bool)
+    (r : Rp) (wf : WF c r) (e : Nat) (he : e < 2 ^ c.W) (d d' : D) (r' : Rp) (b : Bool)
     (h : remove c g fuel r e d = .ok ((r', b), d')) : RemOK c r e r' b := by
   match r, wf with
   | .empty, _ => exact remove_empty_ok g fuel e d d' r' b h
   | .stack t, wf => exact remove_stack_ok ok g fuel hins wf e d d' r' b h
-  | .heap sz cap bits a, wf => exact hheap sz cap bits a e d r' b d' wf h
+  | .heap sz cap bits a, wf => exact hheap sz cap bits a e d r' b d' wf he h
 
 #print axioms stack_members_sorted
 #print axioms stack_members_length
